@@ -1,0 +1,11 @@
+//go:build !verif
+
+// Package verifhook holds the verification hooks; without the build tag "verif"
+// they are empty stubs.
+package verifhook
+
+const Enabled = false
+
+func IO(kind string, name string, n int64) {}
+
+func Point(name string, arg string) {}
